@@ -97,11 +97,13 @@ func moqNamespace(t *rapid.T, label string) namespace.Namespace {
 
 var moqCodecs = []string{
 	"avc3.640028", "avc3.42c01e", "avc3", "hev1.1.6.L93.B0", "hev1", "av01.0.04M.08", "av01", "vp09.00.10.08", "vp09", "vp8",
-	"opus", "mp4a.40.2", "mp4a", "mp4a.40.5", "avc1.640028", "hvc1", "flac", "", "OPUS", "vp8 ", "mp3", "ac-3",
+	"opus", "mp4a.40.2", "mp4a", "mp4a.40.5", "opus", "avc3.640028", "mp4a.40.2", "hev1.1.6.L93.B0", "vp8", "av01.0.04M.08",
+	"opus", "mp4a.40.2", "avc3.640028", "vp09.00.10.08",
+	"avc1.640028", "hvc1", "flac", "", "OPUS", "vp8 ", "mp3", "ac-3", // not supported: the catalog is refused
 }
 
 func moqCatalogJSON(t *rapid.T, label string) ([]byte, int, string) {
-	switch rapid.IntRange(0, 9).Draw(t, label+"Shape") {
+	switch rapid.IntRange(0, 11).Draw(t, label+"Shape") {
 	case 0: // raw JSON oddities
 		s := rapid.SampledFrom([]string{
 			`{}`, `null`, `[]`, `"x"`, `1`, ``, `{`, `{"tracks":null}`, `{"tracks":{}}`, `{"tracks":[null]}`, `{"tracks":[1]}`,
@@ -182,7 +184,6 @@ func GenMoQ(t *rapid.T, nativeQUIC bool) MoQScript {
 	sc := MoQScript{Version: rapid.SampledFrom(MoQVersions).Draw(t, "moqVersion")}
 	draft16 := sc.Version == "moqt-16"
 	add := func(bidi bool, d []byte, note string) {
-		d = MutateBytes(t, fmt.Sprintf("moqMut%d", len(sc.Streams)), d)
 		sc.Streams = append(sc.Streams, MoQStream{Bidi: bidi, D: d, Note: note})
 	}
 
@@ -190,7 +191,7 @@ func GenMoQ(t *rapid.T, nativeQUIC bool) MoQScript {
 	setup := controlmessage.Setup{}
 	if nativeQUIC {
 		p := "/" + PathName(t, "moqPath")
-		switch rapid.IntRange(0, 7).Draw(t, "moqPathShape") {
+		switch rapid.IntRange(0, 11).Draw(t, "moqPathShape") {
 		case 0:
 			p = PathName(t, "moqPath2") // no leading slash
 		case 1:
@@ -201,7 +202,7 @@ func GenMoQ(t *rapid.T, nativeQUIC bool) MoQScript {
 		}
 		setup.Path = p
 	}
-	switch rapid.IntRange(0, 9).Draw(t, "moqSetupOdd") {
+	switch rapid.IntRange(0, 19).Draw(t, "moqSetupOdd") {
 	case 0:
 		setup.Authority = EvilToken(t, "moqAuthority")
 	case 1:
@@ -210,7 +211,7 @@ func GenMoQ(t *rapid.T, nativeQUIC bool) MoQScript {
 		}
 	default:
 	}
-	setupKind := rapid.SampledFrom([]string{"ok", "ok", "ok", "ok", "ok", "ok", "none", "twice", "wrongkind", "late"}).Draw(t, "moqSetupKind")
+	setupKind := rapid.SampledFrom([]string{"ok", "ok", "ok", "ok", "ok", "ok", "ok", "ok", "ok", "ok", "ok", "ok", "none", "twice", "wrongkind", "late"}).Draw(t, "moqSetupKind")
 	setupBytes := func(asClient bool) []byte {
 		if asClient {
 			return safeMarshal(func() []byte { return controlmessage.ClientSetup(setup).Marshal() })
@@ -371,6 +372,15 @@ func GenMoQ(t *rapid.T, nativeQUIC bool) MoQScript {
 	}
 	if setupKind == "late" {
 		emitSetup()
+	}
+	// byte-level damage on top of the structure: most scripts keep all but one stream intact, so that the session
+	// reaches the state the damaged stream is meant for (any stream error ends the whole session)
+	if len(sc.Streams) > 0 {
+		for i := 0; i < rapid.SampledFrom([]int{0, 0, 1, 1, 1, 2}).Draw(t, "moqDamaged"); i++ {
+			k := rapid.IntRange(0, len(sc.Streams)-1).Draw(t, fmt.Sprintf("moqDamagedIdx%d", i))
+			sc.Streams[k].D = MutateBytesAlways(t, fmt.Sprintf("moqMut%d", i), sc.Streams[k].D)
+			sc.Streams[k].Note += "+damaged"
+		}
 	}
 	return sc
 }
